@@ -413,6 +413,166 @@ example : resultObs 3 (stOf hS 0) = .pair (.atom (.opaque "n5")) (.atom (.opaque
 /-- allocation on the two sides hands out different addresses (3 vs 0): `φ` is extended, not equal -/
 example : (cput hS (.val .nil)).2 = 2 ∧ (cput hT (.val .nil)).2 = 1 := by decide
 
+/-! ### non-vacuity of `Safe` (and of the whole hypothesis set of T03.5) -/
+
+open Marwood.Lemmas.HeapWF in
+/-- a heap holding one code object `HALT` -/
+def hHalt : CHeap :=
+  { chunk := 4, cells := #[.lambda { bc := [.opcode .halt], args := [], envmap := [] }, .val .undefined, .val .undefined,
+      .val .undefined]
+    gc := #[.allocated, .free, .free, .free], free := [1, 2, 3], symtab := [], globSyms := [], globals := #[] }
+
+def sHalt (o : Nat) : St CHeap :=
+  { heap := hHalt, stack := { cells := [.undefined], sp := 0 }, acc := .undefined, ep := usizeMax, ipL := 0, ipO := o,
+    bp := 0 }
+
+/-- its erasure, literally -/
+def eHalt : Heap :=
+  { chunk := 4, cells := #[.lambda [.opcode .halt] [] [], .atom .undefined, .atom .undefined, .atom .undefined]
+    gc := #[.allocated, .free, .free, .free], free := [1, 2, 3], symtab := [] }
+
+theorem toHeap_hHalt : toHeap hHalt = eHalt := by
+  simp [toHeap, hHalt, eHalt, eraseC, eraseV, eraseOp]
+
+theorem hHalt_gc (i : Nat) : eHalt.gc[i]? =
+    if i = 0 then some GcState.allocated else if i < 4 then some GcState.free else none := by
+  by_cases hi : i < 4
+  · rcases four_cases hi with h | h | h | h <;> subst h <;> decide
+  · have h1 : eHalt.gc[i]? = none := Array.getElem?_eq_none (by simp [eHalt]; omega)
+    rw [h1]
+    have : i ≠ 0 := by omega
+    simp [this, hi]
+
+theorem hHalt_cells (i : Nat) : eHalt.cells[i]? =
+    if i = 0 then some (Heap.VCell.lambda [.opcode .halt] [] []) else if i < 4 then some Heap.VCell.undefined else none := by
+  by_cases hi : i < 4
+  · rcases four_cases hi with h | h | h | h <;> subst h <;> rfl
+  · have h1 : eHalt.cells[i]? = none := Array.getElem?_eq_none (by simp [eHalt]; omega)
+    rw [h1]
+    have : i ≠ 0 := by omega
+    simp [this, hi]
+
+theorem hHalt_nonFree (i : Nat) : eHalt.NonFree i ↔ i = 0 := by
+  unfold Heap.NonFree
+  rw [hHalt_gc]
+  by_cases h0 : i = 0
+  · simp [h0]
+  · by_cases h4 : i < 4 <;> simp [h0, h4]
+
+theorem eHalt_wf : WFHeap true eHalt := by
+  refine ⟨⟨by decide, ⟨by decide, by decide, 1, by decide, by decide⟩, by decide, ?_, by decide, ?_, ?_, ?_⟩, ?_⟩
+  · intro i
+    rw [hHalt_gc]
+    by_cases h0 : i = 0
+    · subst h0; decide
+    · by_cases h4 : i < 4
+      · have : i = 1 ∨ i = 2 ∨ i = 3 := by omega
+        rcases this with h | h | h <;> subst h <;> decide
+      · simp [h0, h4, eHalt]; omega
+  · intro i hi
+    rw [hHalt_gc] at hi
+    rw [hHalt_cells]
+    by_cases h0 : i = 0
+    · simp [h0] at hi
+    · by_cases h4 : i < 4
+      · simp [h0, h4]
+      · simp [h0, h4] at hi
+  · intro name i
+    have e : eHalt.symLookup name = none := rfl
+    rw [e]
+    unfold Heap.AllocSym
+    rw [hHalt_nonFree, hHalt_cells]
+    constructor
+    · intro h; cases h
+    · rintro ⟨h1, h2⟩; subst h2; simp at h1
+  · intro i hi y hy
+    rw [hHalt_nonFree] at hi
+    subst hi
+    have : eHalt.children true 0 = [] := rfl
+    rw [this] at hy; cases hy
+  · intro i
+    rw [hHalt_gc]
+    by_cases h0 : i = 0
+    · simp [h0]
+    · by_cases h4 : i < 4 <;> simp [h0, h4]
+
+theorem sHalt_good (o : Nat) (ho : o = 0 ∨ o = 1) : Good (sHalt o) := by
+  have hl : lambdaAt hHalt 0 = some { bc := [.opcode .halt], args := [], envmap := [] } := rfl
+  refine ⟨by show (4 : Nat) ≤ 2 ^ 63; decide, ⟨?_, ?_, ?_⟩, by show WFHeap true (toHeap hHalt); rw [toHeap_hHalt]; exact eHalt_wf, ?_, ?_, ?_, ?_⟩
+  · intro i v hv
+    have hi : i < 4 := by have := lt_of_get_some hv; simpa [sHalt, hHalt] using this
+    rcases four_cases hi with h | h | h | h <;> subst h <;> simp [sHalt, hHalt] at hv <;> subst hv <;> rfl
+  · intro v hv; simp [sHalt, hHalt] at hv
+  · intro i c hc
+    have hi : i < 4 := by have := lt_of_get_some hc; simpa [sHalt, hHalt] using this
+    rcases four_cases hi with h | h | h | h <;> subst h <;> simp [sHalt, hHalt] at hc
+  · show RootsOk (toHeap hHalt) _
+    rw [toHeap_hHalt]
+    intro y hy
+    have : (rootsOf (sHalt o)).refs true = [0, usizeMax] := by
+      simp [rootsOf, sHalt, Roots.refs, hHalt, eraseV, vrefsList, vrefs]
+    rw [this] at hy
+    rcases List.mem_cons.mp hy with h | h
+    · subst h; exact .inl ((hHalt_nonFree 0).mpr rfl)
+    · have : y = usizeMax := by simpa using h
+      subst this; exact .inr (by unfold Heap.Sentinel usizeMax; decide)
+  · intro i l hc p hp a
+    have hi : i < 4 := by have := lt_of_get_some hc; simpa [sHalt, hHalt] using this
+    rcases four_cases hi with h | h | h | h <;> subst h <;> simp [sHalt, hHalt] at hc
+    subst hc; cases hp
+  · intro l off h1 h2
+    have : l = { bc := [.opcode .halt], args := [], envmap := [] } := by
+      have h1' : lambdaAt hHalt 0 = some l := h1
+      rw [hl] at h1'; cases h1'; rfl
+    subst this
+    rcases ho with h | h <;> subst h <;> simp [sHalt] at h2
+  · intro l h1 h2
+    have : l = { bc := [.opcode .halt], args := [], envmap := [] } := by
+      have h1' : lambdaAt hHalt 0 = some l := h1
+      rw [hl] at h1'; cases h1'; rfl
+    subst this
+    rcases ho with h | h <;> subst h <;> simp [sHalt] at h2
+
+theorem sHalt_step0 (ext : ExtOps) (force : Bool) : (machine ext force).step (sHalt 0) = .halt (sHalt 1) := rfl
+theorem sHalt_step1 (ext : ExtOps) (force : Bool) :
+    (machine ext force).step (sHalt 1) = .fail (.err .invalidBytecode) (sHalt 1) := rfl
+theorem sHalt_gc (ext : ExtOps) (o : Nat) : (machine ext false).gc (sHalt o) = sHalt o := by
+  show cgc false (sHalt o) = sHalt o
+  unfold cgc
+  have : Heap.runGc true false (toHeap (sHalt o).heap) (rootsOf (sHalt o)) = .ok (.skipped eHalt) := by
+    show Heap.runGc true false (toHeap hHalt) _ = _
+    rw [toHeap_hHalt]; rfl
+  rw [this]
+
+/-- **`Safe` is satisfiable**: the one-instruction program `HALT` on a well-formed heap -/
+theorem sHalt_safe (ext : ExtOps) : Safe (machine ext false) (sHalt 0) := by
+  have key : ∀ s', Reaches (machine ext false) (sHalt 0) s' → s' = sHalt 0 ∨ s' = sHalt 1 := by
+    intro s' hr
+    induction hr with
+    | refl => exact .inl rfl
+    | next _ e ih =>
+      rcases ih with h | h <;> subst h
+      · rw [sHalt_step0] at e; cases e
+      · rw [sHalt_step1] at e; cases e
+    | halt _ e ih =>
+      rcases ih with h | h <;> subst h
+      · rw [sHalt_step0] at e; cases e; exact .inr rfl
+      · rw [sHalt_step1] at e; cases e
+    | gc _ ih =>
+      rcases ih with h | h <;> subst h
+      · exact .inl (sHalt_gc ext 0)
+      · exact .inr (sHalt_gc ext 1)
+  intro s' hr
+  rcases key s' hr with h | h <;> subst h
+  · exact sHalt_good 0 (.inl rfl)
+  · exact sHalt_good 1 (.inr rfl)
+
+/-- T03.5 instantiated: every schedule of (utilisation-tested) collections around `HALT` -/
+example (sched : Nat → Bool) : ∃ s', runSched (machine failingExt false) sched 1 0 (sHalt 0) = .done s' ∧
+    ∀ fuel, resultObs fuel s' = resultObs fuel (sHalt 1) :=
+  gc_unobservable_value_partial failingExt false failingExt_laws sched 1 (sHalt 0) (sHalt 1)
+    (sHalt_safe failingExt) rfl
+
 end Unobservable
 
 end Marwood.Proofs.C03
